@@ -2,5 +2,6 @@ import Srsim.Spec.ModifierProp
 def comp : Component ModAdapter.DSt where
   init := {}
   step := ModAdapter.stepRec
+  stepO := some fun d r obs => ModAdapter.stepRec (ModAdapter.withShuffle d r obs) r
   prop := ModifierProp.checkC05
 def main (args : List String) : IO Unit := Driver.main comp args
